@@ -252,17 +252,17 @@ def jobs(tier):
         add(kind=kind, T=1, ES=1, BS=1, XS=1, REPS=2, OUT=1, direct=True)
         add(kind=kind, T=2, ES=0, BS=1, XS=0, OUT=1, direct=True)
         add(kind=kind, T=2, ES=1, BS=1, XS=1, K=3, OUT=1)
-        add(kind=kind, T=3, ES=(0 if q else 1), BS=1, XS=0, OUT=(1 if q else 2))
+        add(kind=kind, T=3, ES=0, BS=1, XS=0, OUT=(1 if q else 2))
         if not q:
             add(kind=kind, T=2, ES=1, BS=2, XS=1)
-            for c0 in range(3):  # three calls suspending everywhere: partitioned by the first scheduling choice
-                add(kind=kind, T=3, ES=1, BS=1, XS=1, OUT=0, c0=c0)
+            for c0 in range(3):  # three calls suspending in enter and body: partitioned by the first scheduling choice
+                add(kind=kind, T=3, ES=1, BS=1, XS=0, OUT=0, c0=c0)
     return J
 
 
 BOUNDS = {
     "quick": "all interleavings of 2..3 concurrent calls of one decorated coroutine function with suspensions in enter, body and exit; body outcome return / raise an Exception subclass / raise exactly Exception / raise a StopAsyncIteration subclass / raise a falsy exception object per call (symbolic); the decorated function also as a method called through its instance; the decorating manager object also entered directly once before the calls (direct jobs); generator parameters named func and self passed by keyword; manager created with positional and keyword arguments; manager built by contextmanager, a ContextDecorator subclass, or suppressing; 1..3 repeated sequential calls (symbolic count); first caller cancelled at its k-th suspension (k<=3)",
-    "thorough": "3 calls with suspensions everywhere (all returning), 2 calls with 2 suspensions in the body and every outcome",
+    "thorough": "3 calls suspending in enter and body (all returning; with a suspending exit as well the 34650 schedules did not exhaust), 3 calls with every outcome, 2 calls with 2 suspensions in the body and every outcome",
 }
 OUTSIDE = ["more than 3 concurrent calls", "ContextDecorator subclasses that override _recreate_cm"]
 NONTRIVIAL_RULE = ">=1 context switch in the schedule (or a single sequential caller)"
